@@ -21,7 +21,7 @@
 
 #define MAXOPS 200
 #define MAXCMDS 40
-typedef struct { char name[4]; long long a[4]; unsigned long long u; unsigned char data[600]; size_t dlen; int isnull; } op_t;
+typedef struct { char name[4]; long long a[4]; unsigned long long u; unsigned char data[1300]; size_t dlen; int isnull; } op_t;
 typedef struct { char pattern[96]; int tag; op_t ops[MAXOPS]; int nops; } hcmd_t;
 typedef struct { hcmd_t cmds[MAXCMDS]; int n; scpi_command_t table[MAXCMDS + 1]; } table_t;
 
@@ -113,13 +113,21 @@ static scpi_result_t generic_handler(scpi_t *ctx) {
         else if (!strcmp(o->name, "rKH")) SCPI_ResultArbitraryBlockHeader(ctx, (size_t) o->a[0]);
         else if (!strcmp(o->name, "rKD")) SCPI_ResultArbitraryBlockData(ctx, o->isnull ? NULL : o->data, o->isnull ? 0 : o->dlen);
         else if (!strcmp(o->name, "rA")) {
-            /* elements given big-endian; build the native array */
-            size_t sz = (size_t) o->a[0], cnt = sz ? o->dlen / sz : 0, k, j; scpi_array_format_t fmt = o->a[1] ? SCPI_FORMAT_SWAPPED : SCPI_FORMAT_NORMAL;
+            /* rA,<size>,<format 0 NORMAL 1 SWAPPED 2 ASCII>,<hex elements>[,<kind 0 unsigned 1 signed 2 float/double>]
+             * elements given big-endian; build the native array */
+            size_t sz = (size_t) o->a[0], cnt = sz ? o->dlen / sz : 0, k, j; int kind = (int) o->a[3];
+            scpi_array_format_t fmt = o->a[1] == 2 ? SCPI_FORMAT_ASCII : o->a[1] ? SCPI_FORMAT_SWAPPED : SCPI_FORMAT_NORMAL;
             unsigned char *arr = o->isnull ? NULL : (unsigned char *) malloc(o->dlen ? o->dlen : 1);     /* "N": an empty array held by a NULL pointer */
             if (o->isnull) cnt = 0;
             for (k = 0; k < cnt; k++) { uint64_t v = 0; for (j = 0; j < sz; j++) v = (v << 8) | o->data[k * sz + j]; memcpy(arr + k * sz, &v, sz); /* little-endian host */ }
-            if (sz == 1) SCPI_ResultArrayUInt8(ctx, arr, cnt, fmt); else if (sz == 2) SCPI_ResultArrayUInt16(ctx, (uint16_t *) arr, cnt, fmt);
-            else if (sz == 4) SCPI_ResultArrayUInt32(ctx, (uint32_t *) arr, cnt, fmt); else SCPI_ResultArrayUInt64(ctx, (uint64_t *) arr, cnt, fmt);
+            if (kind == 2) { if (sz == 4) SCPI_ResultArrayFloat(ctx, (float *) arr, cnt, fmt); else SCPI_ResultArrayDouble(ctx, (double *) arr, cnt, fmt); }
+            else if (kind == 1) {
+                if (sz == 1) SCPI_ResultArrayInt8(ctx, (int8_t *) arr, cnt, fmt); else if (sz == 2) SCPI_ResultArrayInt16(ctx, (int16_t *) arr, cnt, fmt);
+                else if (sz == 4) SCPI_ResultArrayInt32(ctx, (int32_t *) arr, cnt, fmt); else SCPI_ResultArrayInt64(ctx, (int64_t *) arr, cnt, fmt);
+            } else {
+                if (sz == 1) SCPI_ResultArrayUInt8(ctx, arr, cnt, fmt); else if (sz == 2) SCPI_ResultArrayUInt16(ctx, (uint16_t *) arr, cnt, fmt);
+                else if (sz == 4) SCPI_ResultArrayUInt32(ctx, (uint32_t *) arr, cnt, fmt); else SCPI_ResultArrayUInt64(ctx, (uint64_t *) arr, cnt, fmt);
+            }
             free(arr);
         } else if (!strcmp(o->name, "eP")) { o->data[o->dlen] = 0; SCPI_ErrorPushEx(ctx, (int16_t) o->a[0], o->isnull ? NULL : (char *) o->data, 0); }
         else if (!strcmp(o->name, "iT")) fprintf(EV, " G%d", (int) SCPI_CmdTag(ctx));
